@@ -1,5 +1,89 @@
+import NA.Model.MapSites
 import NA.Core.IOUtil
-/-! Driver stub for C16 (not built yet): echoes its input. -/
+/-! Driver for C16: runs the models of the repaired loops (`…Fixed`, fold over the entries sorted
+by key) on one case per line.  Fields are separated by TAB, entries by `|`, parts of an entry by `;`.
+
+* `fg  TYP  TARGET  name;needed;typ;elems|…`   → name of the group taken over, or `none`
+      (`findGroupFixed strLe`; elems / TARGET are comma separated numbers)
+* `peer  seq;peer|…`  (empty peer = entry without peer)
+      → `abort SEQ` or `peer=seq,…` for the peers in order of first appearance in the input (`peerMapFixed`)
+* `first  key;msg|…`  (empty msg = none)          → first message in ascending key order, or `none` (`firstAbortFixed strLe`)
+* `first2  prefix;name;msg|…`                     → the same for keys (prefix, name), lexicographic (`firstErrorFixed (lexLe strLe strLe)`)
+* `opt  k;v|…  k;v|…`   (options of rule a, of rule b) → `k;v;v2` of the first differing option, or `none` (`firstOptionFixed strLe`)
+* `log  key;msg|…`                                → messages in ascending key order joined by `|` (`infoLogFixed strLe`)
+-/
+namespace NA.Drv.C16
+open NA.C16 NA.PermFold NA.IOUtil
+
+def parts (s : String) : List String := s.splitOn ";"
+
+def parseGroup (s : String) : Option (String × Group) :=
+  match parts s with
+  | [name, needed, typ, elems] => do
+    let t ← typ.toNat?
+    let es ← natList elems
+    pure (name, ⟨needed == "1", t, es⟩)
+  | _ => none
+
+def optStr (s : String) : Option String := if s.isEmpty then none else some s
+
+def dedup (l : List String) : List String :=
+  l.foldl (fun acc x => if acc.contains x then acc else acc ++ [x]) []
+
+def answer (line : String) : String :=
+  match splitTab line with
+  | ["fg", typ, target, entries] =>
+    match typ.toNat?, natList target, (splitBar entries).mapM parseGroup with
+    | some t, some tg, some es => (findGroupFixed strLe t tg es).getD "none"
+    | _, _, _ => "bad-input"
+  | ["peer", entries] =>
+    let es? := (splitBar entries).mapM fun e => match parts e with
+      | [seq, peer] => seq.toNat?.map fun n => (n, optStr peer)
+      | _ => none
+    match es? with
+    | none => "bad-input"
+    | some es =>
+      match peerMapFixed es with
+      | .error n => s!"abort {n}"
+      | .ok m =>
+        let peers := dedup (es.filterMap Prod.snd)
+        joinComma (peers.map fun p => s!"{p}={(m p).getD 0}")
+  | ["first", entries] =>
+    let es? := (splitBar entries).mapM fun e => match parts e with
+      | [k, msg] => some (k, optStr msg)
+      | _ => none
+    match es? with
+    | none => "bad-input"
+    | some es => (firstAbortFixed strLe es).getD "none"
+  | ["first2", entries] =>
+    let es? := (splitBar entries).mapM fun e => match parts e with
+      | [p, n, msg] => some ((p, n), optStr msg)
+      | _ => none
+    match es? with
+    | none => "bad-input"
+    | some es => (firstErrorFixed (lexLe strLe strLe) es).getD "none"
+  | ["opt", a, b] =>
+    let kv := fun (s : String) => (splitBar s).mapM fun e => match parts e with
+      | [k, v] => some (k, v)
+      | _ => none
+    match kv a, kv b with
+    | some ea, some eb =>
+      let bf := fun k => ((eb.find? fun e => e.1 == k).map Prod.snd).getD ""
+      match firstOptionFixed strLe bf ea with
+      | none => "none"
+      | some (k, v, v2) => s!"{k};{v};{v2}"
+    | _, _ => "bad-input"
+  | ["log", entries] =>
+    let es? := (splitBar entries).mapM fun e => match parts e with
+      | [k, msg] => some (k, optStr msg)
+      | _ => none
+    match es? with
+    | none => "bad-input"
+    | some es => joinBar (infoLogFixed strLe es)
+  | _ => "bad-input"
+
+end NA.Drv.C16
+
 def main (_ : List String) : IO UInt32 := do
-  NA.IOUtil.eachLine id
+  NA.IOUtil.eachLine NA.Drv.C16.answer
   return 0
